@@ -300,7 +300,25 @@ def run_check(mod, tier, seed, replay=None):
             violations.append(('forbidden-token', 'forbidden tokens in lean sources: %s' % hits[:5], {'hits': hits}, True))
 
     # 2. harness builds ------------------------------------------------------------------------
-    specs = mod.harness_specs(tier)
+    specs = list(mod.harness_specs(tier))
+    # the slice of the C09 kind matrix for the operations this property owns (constant / clipped / fixed / bounded / dynamic
+    # argument kinds, refused requests included): `if constexpr` branches selected by the KIND of an argument are not reached
+    # by a harness that feeds dynamic containers only.  Classes of open C09 findings are left to C09.
+    slice_cases = []
+    if pid != 'C09' and os.environ.get('VERIF_NO_KIND_SLICE') != '1':
+        try:
+            import importlib
+            c09 = importlib.import_module('props.c09')
+            ops = c09.OPS_BY_PROPERTY.get(pid)
+            if ops:
+                sp, cs = c09.slice_for(ops, tier, random.Random(seed), refused_only=(pid == 'C15'))
+                specs += list(sp)
+                for c in cs:
+                    if c09.slice_known(c) is None:
+                        c.tags = tuple(c.tags) + ('kind-slice',)
+                        slice_cases.append(c)
+        except Exception as e:
+            violations.append(('kind-slice', 'the kind-matrix slice of this property could not be generated: %s' % e, {'error': repr(e)}, True))
     built = harness_build_many(specs)
     bins = {}
     for n, (b, lg) in built.items():
@@ -318,7 +336,7 @@ def run_check(mod, tier, seed, replay=None):
         cases = [Case(c['req'], c['harness'], dom=c.get('dom', True), oracle=c.get('oracle'), model=c.get('model', True),
                       mreq=c.get('mreq')) for c in rp.get('cases', [])]
     else:
-        cases = list(mod.gen(tier, rng))
+        cases = list(mod.gen(tier, rng)) + slice_cases
     # witnesses of known findings and the corpus run first
     def execute(cases):
         by_h = {}
